@@ -17,8 +17,7 @@ RULE = ("instrumented real runs (dry and real) inside an enclosing sandbox with 
 ASSUMPTIONS = [
     "the kernel resolves all but the last component of a rename target; Path.resolve() as modelled (symlink-free statement "
     "proved, symlinked components tied by correspondence)",
-    "a custom path typed at the manual prompt is user-chosen, not template-generated: it is only required to stay in the "
-    "directory in name/directory mode (the renamer's parent comparison)",
+    "a custom path typed at the manual prompt is subject to the same containment requirement as a generated one (F18)",
 ]
 TRUSTED = ["models FS.lean / Pipeline.lean; tied by stream runs (compared with the model where modelled)"]
 
@@ -35,6 +34,15 @@ def gen_runs(rng, n, tier):
             for k in list(c["plan"])[:2]:
                 if c["mode"] == "path":
                     c["plan"][k] = "out/z"
+        # symlinked directory components pointing deeper inside / upwards, followed by '..': where the kernel (and
+        # Path.resolve) ends differs from where lexical normalisation ends
+        if c["mode"] == "path" and rng.random() < 0.25:
+            c["spec"].update({"r1/deep": None, "r1/deep/dd": None, "r1/lnk": ["link", "deep/dd"], "r1/up": ["link", ".."]})
+            c["recursive"] = False
+            keys = [k for k in c["plan"] if k.startswith("r1|")] or list(c["plan"])
+            for k in keys[:3]:
+                c["plan"][k] = rng.choice(["lnk/z", "lnk/../z", "lnk/../../z", "lnk/../../../z", "up/z", "up/r1/z",
+                                           "lnk/../../../r1/z", "lnk/../../../r1x/z", "deep/dd/../../../z"])
         yield c
 
 
@@ -105,7 +113,10 @@ def oracle_runs(case, obs):
                 if obs["rc"] == 0:
                     return f"generated path {g[1]!r} for {d}/{rel} escapes the input directory but the run succeeded"
                 src = os.path.normpath(os.path.join(d, rel))
-                if any(op[0] == "rename" and op[1] == src and not under(op[2], d) for op in obs["ops"]):
+                # (an entry designated twice is processed once per designation: a move that stays inside the input
+                #  directory of the OTHER designation is that designation's business)
+                if any(op[0] == "rename" and op[1] == src and not any(under(op[2], dd) for dd in considered.get(src, {d}))
+                       for op in obs["ops"]):
                     return f"{src!r} was moved out of its input directory"
     return None
 
